@@ -680,6 +680,7 @@ package compiler
 // map and field i of a processed struct are what processType returned for them (stored in place).
 //@ func (*AnonymousEnumToExplicitType).processAnonymousEnum
 //@   property C06
+//@   traced
 //@   requires pass != nil
 //@   ensures  named: result.Kind == ast.KindRef && result.Ref != nil && result.Ref.ReferredPkg == old(pass.currentPackage)
 //@   ensures  registered: len(pass.newObjects) == old(len(pass.newObjects)) + 1 && pass.newObjects[old(len(pass.newObjects))].Type.Kind == ast.KindEnum && pass.newObjects[old(len(pass.newObjects))].Name == result.Ref.ReferredType
@@ -691,9 +692,13 @@ package compiler
 //@   ensures  notenum: result.Kind != ast.KindEnum
 //@   ensures  enum: def.Kind == ast.KindEnum ==> result.Kind == ast.KindRef
 //@   ensures  kind: def.Kind != ast.KindEnum ==> result.Kind == def.Kind
+//@   ensures  array: def.Kind == ast.KindArray ==> returned("compiler.(*AnonymousEnumToExplicitType).processArray", pass, pkg, currentObjectName, suggestedEnumName, def, result)
+//@   ensures  map: def.Kind == ast.KindMap ==> returned("compiler.(*AnonymousEnumToExplicitType).processMap", pass, pkg, currentObjectName, suggestedEnumName, def, result)
+//@   ensures  struct: def.Kind == ast.KindStruct ==> returned("compiler.(*AnonymousEnumToExplicitType).processStruct", pass, pkg, currentObjectName, def, result)
 //
 //@ func (*AnonymousEnumToExplicitType).processArray
 //@   property C06
+//@   traced
 //@   requires pass != nil && def.Kind == ast.KindArray
 //@   at-call "compiler.(*AnonymousEnumToExplicitType).processType" element: $arg0 == pass && $arg4 == old(def.Array.ValueType)
 //@   ensures  same: result == def
@@ -701,12 +706,14 @@ package compiler
 //
 //@ func (*AnonymousEnumToExplicitType).processMap
 //@   property C06
+//@   traced
 //@   requires pass != nil && def.Kind == ast.KindMap
 //@   ensures  same: result == def
 //@   ensures  value: def.Map.ValueType.Kind != ast.KindEnum
 //
 //@ func (*AnonymousEnumToExplicitType).processStruct
 //@   property C06
+//@   traced
 //@   requires pass != nil && def.Kind == ast.KindStruct
 //@   at-call "compiler.(*AnonymousEnumToExplicitType).processType" field: $arg0 == pass && $arg4 == old(def.Struct.Fields)[$i + 1].Type
 //@   ensures  same: result == def
